@@ -82,9 +82,9 @@ CHECKS["C04"] = dict(
 
 CHECKS["C07"] = dict(
     category="other",
-    text="The grammar file is analysed as source: operator strata and their operator sets (13 operators, one level each) equal the README's precedence table; every level's action is the left fold from_binary_expression whose step builds CallMethod{object: acc, name: spelling(op), arguments: [next]} (HIR); terminal ↦ Operator ↦ as_str is the identity, and the `Operator` nonterminal used by `a.op(b)` / `function op (x)` is the same table as the infix levels; index sugar builds AccessArray/AssignArray in source order; dangling else resolved by the open/closed parameterisation; skip terminals have empty actions and all five regex terminals are language-equivalent (NFA→DFA over an abstract alphabet) to the reference regexes; LALR(1) conflict-freedom by LALRPOP at build time. Partial by design: print→reparse idempotence and decoration-insensitivity at every token boundary are language-level statements over all inputs and are NOT decided (lexer/unambiguity rules are necessary conditions only).",
+    text="The grammar is analysed as source and its semantic actions in their type-checked form. Structure (reader for the LALRPOP subset): the operator strata and their operator sets (13 operators, one level each) equal the README's precedence table; the dangling else is resolved by the open/closed parameterisation; block and top-level lists have a mandatory first element. Actions: every alternative's action — LALRPOP compiles it into a function __actionN of the generated parser, which the fact dumper exports with rustc's resolution and types, and the generated parser itself documents which production runs which action — is executed symbolically with its symbol positions as variables (constructor helpers, IntoBoxed/From impls and composite actions followed); the value each of the 93 alternatives builds must equal the documented tree of that syntactic form: every operator level is the accumulation fold(CallMethod{object: ACC, name: spelling(op), arguments: [next]}) over its tail forwards from the head (left associativity), field/call chains fold AccessField from the object, a[i] / a[i] <- v build AccessArray/AssignArray with array, index, value from their positions, literals denote themselves, statement lists keep their first element in front, choice rules hand on their only symbol, every operator token builds its Operator variant; terminal ↦ Operator ↦ as_str is the identity. Lexer: skip terminals have empty actions and all five regex terminals are language-equivalent (NFA→DFA over an abstract alphabet) to the reference regexes; LALR(1) conflict-freedom by LALRPOP at build time. Partial by design: print→reparse idempotence and decoration-insensitivity at every token boundary are language-level statements over all inputs and are NOT decided (lexer/unambiguity rules are necessary conditions only).",
     note=TB + "; LALRPOP's conflict check and longest-match lexer; S6 from the README",
-    technique="static analysis: structural analysis of the LALRPOP grammar + regular-language equivalence of lexer regexes + HIR rules on the AST builders",
+    technique="static analysis: structural analysis of the LALRPOP grammar + symbolic execution of the type-checked semantic actions (generated parser's action functions) compared with a table of documented trees + regular-language equivalence of lexer regexes",
     ref="DESIGN.md §3 C07")
 CHECKS["C09"] = dict(
     category="other",
@@ -94,9 +94,9 @@ CHECKS["C09"] = dict(
     ref="DESIGN.md §3 C09")
 CHECKS["C15"] = dict(
     category="other",
-    text="print decided as a state machine plus renderer shapes: the (escaped, char) table of eval_print evaluated by first-match semantics over {T,F} × {~ \\ \" n t r OTHER} equals S5 (covers every Unicode format string because the loop is over chars() and the default arm copies the character); both count-mismatch directions fail and null is pushed; per value kind the rendering shape equals S5 (literal texts, payload to_string, [..] with ', ', three object templates selected by parent/fields, name=value, sort on the field name preceding the traversal); the string-literal terminal admits exactly the VM's escape set and the String action strips only the quotes.",
+    text="print decided as a state machine plus renderer shapes: the body of the loop over the format's chars() (found in eval_print or a helper it calls) is abstractly interpreted once per cell of {escaped, plain} × {~ backslash quote n t r OTHER} — character and scanner state fixed, helpers inlined — and the text appended, the arguments taken and the state afterwards must equal S5 in every cell (covers every Unicode format string because the loop is over chars() and OTHER is a symbolic character); every successful path of eval_print runs that loop; both count-mismatch directions fail and null is pushed; per value kind the rendering shape equals S5 (literal texts, payload to_string, [..] with ', ', three object templates selected by parent/fields, name=value, sort on the field name preceding the traversal, a path-scoped cycle guard); the string-literal terminal admits exactly the VM's escape set and the String alternative builds the token text without its quotes (value of its type-checked action).",
     note=TB + "; i32/bool to_string and slice::join",
-    technique="static analysis: match-table evaluation, handler templates, format_args templates, grammar/regex analysis",
+    technique="static analysis: cell-wise abstract interpretation of the scanner loop body, handler templates, format_args templates of the renderers, grammar/regex analysis",
     ref="DESIGN.md §3 C15")
 
 CHECKS["C01"] = dict(
@@ -113,9 +113,9 @@ CHECKS["C06"] = dict(
     ref="DESIGN.md §3 C06")
 CHECKS["C17"] = dict(
     category="other",
-    text="The listing is the Display rendering of the loaded Program; decided from the format_args templates and resolved arms: every non-derived Program field is formatted in the S8 order with the S8 headers; in each of the 7+17 arms every field of the variant flows into the output and indices are printed; mnemonics equal S8; the per-variant token patterns (literal words interleaved with operand classes whose textual shape comes from the operand types' own Display templates) are pairwise non-unifiable, so for strings without raw line breaks each line determines its item; the disassemble action prints exactly the loaded program, and the loaded program is the program in the file (C04's reader obligations, incl. pool integrity, evaluated as a presupposition). An actual read-back needs execution and is not performed.",
+    text="The listing is the Display rendering of the loaded Program. The Display impls are executed symbolically: every write to the formatter on the path that assumes a variant becomes a segment (literal, displayed value, loop; helpers followed; join(',') and separator loops identified); from the segments: every non-derived Program field is formatted in the S8 order with the S8 headers; for each of the 7+17 variants every field flows into the output; constants, globals and instructions are printed one per line as <position>: <item>, forwards; mnemonics equal S8; the per-variant token patterns (literal words interleaved with operand classes whose textual shape comes from the operand types' own Display templates) are pairwise non-unifiable, so for strings without raw line breaks each line determines its item; the disassemble action prints exactly the loaded program, and the loaded program is the program in the file (C04's reader and C03's loader obligations evaluated as presuppositions). An actual read-back needs execution and is not performed.",
     note=TB + "; S8 from the listing examples shipped in tests/**/*.bc.txt",
-    technique="static analysis: format_args template capture + binding-use coverage + pairwise non-unifiability of token patterns",
+    technique="static analysis: symbolic execution of the Display impls into rendering segments (format_args template capture as fall-back) + field-coverage + pairwise non-unifiability of token patterns",
     ref="DESIGN.md §3 C17")
 
 PENDING_REASON = "check under construction in this round (static rules designed in DESIGN.md §3, not yet implemented)"
